@@ -322,7 +322,8 @@ pub(crate) fn dict_methods(registry: &mut MethodsBuilder) {
             pairs.map(|x| x.get())
         };
 
-        let mut this = DictMut::from_value(this)?;
+        let this_value = this;
+        let mut this = DictMut::from_value(this_value)?;
         if let Some(pairs) = pairs {
             match DictRef::from_value(pairs) {
                 Some(dict) => {
@@ -331,15 +332,36 @@ pub(crate) fn dict_methods(registry: &mut MethodsBuilder) {
                     }
                 }
                 _ => {
+                    // An element of `pairs` can be this very dict (`d.update([d])`), and iterating
+                    // it needs a shared borrow: do not hold the mutable borrow while unpacking.
+                    drop(this);
+                    let mut items = Vec::new();
+                    let mut error = None;
                     for v in pairs.iterate(heap)? {
-                        let mut it = v.iterate(heap)?;
-                        // `StarlarkIterator` is fused.
-                        let (Some(k), Some(v), None) = (it.next(), it.next(), it.next()) else {
-                            return Err(anyhow::anyhow!(
+                        let unpacked = (|| -> starlark::Result<_> {
+                            let mut it = v.iterate(heap)?;
+                            // `StarlarkIterator` is fused.
+                            let (Some(k), Some(v), None) = (it.next(), it.next(), it.next()) else {
+                                return Err(anyhow::anyhow!(
                             "dict.update expect a list of pairs or a dictionary as first argument, got a list of non-pairs.",
                         ).into());
-                        };
-                        this.aref.insert_hashed(k.get_hashed()?, v);
+                            };
+                            Ok((k.get_hashed()?, v))
+                        })();
+                        match unpacked {
+                            Ok(kv) => items.push(kv),
+                            Err(e) => {
+                                error = Some(e);
+                                break;
+                            }
+                        }
+                    }
+                    this = DictMut::from_value(this_value)?;
+                    for (k, v) in items {
+                        this.aref.insert_hashed(k, v);
+                    }
+                    if let Some(e) = error {
+                        return Err(e);
                     }
                 }
             }
